@@ -97,6 +97,7 @@ def main():
             key = json.dumps(jsonable(used), sort_keys=True)
             if key not in seen:
                 seen.add(key)
+            hung = any(l.startswith('unit:terminates') and not ok for (l, ok, m) in results)
             for (l, ok, m) in results:
                 rec['evaluated'] += 1
                 rec['labels'][l] = rec['labels'].get(l, 0) + 1
@@ -105,6 +106,8 @@ def main():
                         rec['known'][m['finding']] = rec['known'].get(m['finding'], 0) + 1
                     elif len(rec['failures']) < 5:
                         rec['failures'].append({'label': l, 'inputs': jsonable(used), 'finding': m.get('finding'), 'in_region': bool(m.get('region'))})
+            if hung:
+                break                  # one input on which the real code does not come back is enough; do not wait for more of them
         rec['distinct'] = len(seen)
         out['twins'].append(rec)
     json.dump(out, open(sys.argv[2], 'w'))
